@@ -53,8 +53,8 @@ def user_calls(outcome, rx=None):
     for e in outcome.st.events:
         if e[0] != 'call':
             continue
-        if e[5] and ('tracing' in e[5] or 'event' in e[5] or 'debug' in e[5] or 'format_args' in e[5]
-                     or 'instrument' in e[5] or 'span' in e[5]):
+        if e[5] and ('tracing' in e[5] or '$crate::event' in e[5] or 'format_args' in e[5] or 'valueset' in e[5]
+                     or 'instrument' in e[5] or 'level_enabled' in e[5]):
             continue
         if rx is not None and not re.search(rx, e[1]):
             continue
